@@ -277,21 +277,78 @@ def rule_bce(ck, R):
                                % (e.name, e.where(), fmt(x)))
     ck.verdict(bad is None, 'C09.e', 'regp_recv:fallback-source', where,
                'early replies take the header from initialised memory only' if bad is None else bad)
-    # overflow reply source = block + sizeof(RPFrame)
+    # overflow reply: the header it echoes has to be the head of the received stream, whatever the block's capacity.
+    # The block is no source for it: "any allocator block size" includes blocks with less room than a header, and the
+    # octets the block could not take are gone.  The sink keeps the head of the stream in the fallback buffer (checked on
+    # the sink's side, C09.a head mirror); the receiver hands that buffer on untouched.
     for p in ps:
         er = [e for e in p.calls('send_early_response') if e.args[2] == C(R.E['RP_RESP_ERXOVERFLOW'])]
         if not er:
             continue
         adds = p.calls('byte_buffer_add')
         blk = strip_cast(sym.mem_read(p.mem, csdata))
-        ok = False
-        if adds:
-            d = L(adds[-1].args[1]) - L(blk)
-            ok = d.is_const() and d.c == R.so.get('RPFrame', 64)
-        ck.verdict(ok, 'C09.e', 'regp_recv:overflow-header', where,
-                   'the ERXOVERFLOW reply parses the header stored at block + sizeof(RPFrame)' if ok else
-                   'the ERXOVERFLOW reply does not take the header from block + sizeof(RPFrame)')
+        bad = None
+        for a_ in adds:
+            if sym.rooted_at(strip_cast(a_.args[1]), blk) or sym.contains(a_.args[1], blk):
+                bad = ('the header for the ERXOVERFLOW reply is rebuilt from the block (%s octets at %s): a block with less room than a header holds only part '
+                       'of it, the rest was dropped by the sink, and the reply degenerates into META EHEADERENC' % (fmt(a_.args[2]), fmt(a_.args[1])))
+        if bad is None and not _head_mirror_ok(ck):
+            bad = 'the fallback buffer is handed on, but the receive sink does not keep the head of the stream in it while a block is in use'
+        ck.verdict(bad is None, 'C09.e', 'regp_recv:overflow-header', where,
+                   'the ERXOVERFLOW reply parses the head of the stream as the sink kept it in the fallback buffer (independent of the block\'s capacity)'
+                   if bad is None else bad)
         break
+
+
+def _head_mirror_ok(ck):
+    """continuable sink: while a block is in use every delivery is also stored into the fallback buffer, min(n, its free
+    space) octets from the same data, before the block store"""
+    u = cast.load(CS_UNIT)
+    ub = cast.load('src/byte-buffer.c')
+    so = sym.unit_sizeofs(CS_UNIT, u)
+    eng = sym.Engine(u, sizeof=so, inline={'byte_buffer_rest', 'byte_buffer_avail'}, other_units=[ub])
+    if u.fn('cs_keep_head') is None or u.fn('run_continuable_sink') is None:
+        return False
+    cs = ('v', 'cs')
+    fb = ('f', cs, 'fallback')
+    good = False
+    for p in eng.paths('cs_keep_head'):
+        adds = p.calls('byte_buffer_add')
+        has_block = any(c == ('cmp', '!=', ('f', ('&', ('f', cs, 'buffer')), 'data'), C(0)) or ('buffer.data != 0' in fmt(c)) for c in p.cond_terms())
+        has_fb = any('fallback != 0' in fmt(c) for c in p.cond_terms())
+        if has_block and has_fb:
+            facts = eng.path_facts(p)
+            free = L(('f', fb, 'size')) - L(('f', fb, 'used'))
+            if not adds:
+                # nothing stored: only when there is nothing to store (n == 0 or no room)
+                if eng.feasible(p.cond_terms(), [Lin.const(1) - L(('v', 'n')), Lin.const(1) - free]):
+                    return False
+                continue
+            a = adds[0]
+            if strip_cast(a.args[0]) != fb or a.args[1] != ('v', 'data'):
+                return False
+            cnt = L(a.args[2])
+            inv = [lin.le(L(('f', fb, 'used')), L(('f', fb, 'size')))]
+            if not (eng.entails(facts + inv, cnt - L(('v', 'n'))) and eng.entails(facts + inv, cnt - free)):
+                return False
+            if eng.feasible(p.cond_terms(), inv + [cnt + 1 - L(('v', 'n')), cnt + 1 - free]):
+                return False                 # stores less than both n and the room
+            good = True
+        elif adds:
+            return False
+    if not good:
+        return False
+    # every cs_add of the sink is preceded by the mirror call with the same data
+    for p in eng.paths('run_continuable_sink'):
+        seen = False
+        al = p.calls('block_alloc')
+        noblock = al and any(c == ('cmp', '<', al[0].result, C(0)) for c in p.cond_terms())
+        for e in p.calls():
+            if e.name == 'cs_keep_head' and e.args[1:] == (('v', 'data'), ('v', 'n')):
+                seen = True
+            if e.name == 'cs_add' and not seen and not noblock:
+                return False             # (after a failed allocation there is no block: cs_add itself fills the fallback buffer)
+    return True
 
 
 def rule_d(ck, R):
